@@ -137,6 +137,8 @@ vector<uint8_t> RadioTapWriter::build_padding_vector(const uint8_t* last_ptr,
 // Iterates the padding vector and extends/compacts the paddings as needed
 void RadioTapWriter::update_paddings(const vector<uint8_t>& paddings, uint32_t offset) {
     size_t i = 0;
+    // The index in the padding vector that corresponds to the current offset
+    size_t offset_index = 0;
     while (i != paddings.size()) {
         // Skip everything that doesn't need padding
         while (i != paddings.size() && paddings[i] == 1) {
@@ -150,7 +152,8 @@ void RadioTapWriter::update_paddings(const vector<uint8_t>& paddings, uint32_t o
         if (i == paddings.size()) {
             break;
         }
-        offset += start;
+        // Advance over whatever we skipped since the last field we re-aligned
+        offset += start - offset_index;
         const uint8_t needed_padding = calculate_padding(paddings[i], offset + sizeof(uint32_t));
         const size_t existing_padding = i - start;
         // Remove padding if there's too much
@@ -165,6 +168,8 @@ void RadioTapWriter::update_paddings(const vector<uint8_t>& paddings, uint32_t o
             offset += needed_padding - existing_padding;
         }
         offset += i - start;
+        // offset now points to the first byte of the field at index i
+        offset_index = i;
         ++i;
     }
 }
